@@ -26,7 +26,7 @@ from sx.rt import And, Implies, Not, Or, SInt, SReal, Unsupported, same_value, t
 
 from harness import export as X
 from harness import importer as M
-from harness.step import LID, POS, T as TK, TID, Snap
+from harness.step import CUS, LID, POS, T as TK, TID, Snap
 
 
 class _GraphStore:
@@ -95,6 +95,12 @@ def _compare(ctx, p, tr2, ids_map=None):
         tcs.append(same_value(tr2.get_time(m), SInt(p.t0[i])))
         pcs.append(same_value(list(tr2.get_position(m)), [SReal(z3.ToReal(e) if z3.is_int(e) else e) for e in p.pos0[i]]))
         kcs.append(same_value(tr2.get_track_id(m), SInt(p.tid0[i])))
+    if getattr(p, "cus0", None):
+        ccs = []
+        for i in range(n):
+            if present[i]:
+                ccs.append(same_value(g2.nodes[ids_map[p.ids[i]]].get(CUS), SInt(p.cus0[i])))
+        ctx.oblige("C14.same_loaded_features", And(ccs), "C14")
     ctx.oblige("C14.same_times", And(tcs), "C14")
     ctx.oblige("C14.same_positions", And(pcs), "C14")
     ctx.oblige("C14.same_track_ids", And(kcs), "C14")
@@ -124,13 +130,17 @@ def geff_harness(ctx, cfg):
         ctx.tag("empty")
         return
     name_map = {"time": axis[0], "pos": axis[1:], "track_id": TID, "lineage_id": LID}
+    node_features = None
+    if cfg.get("custom"):
+        name_map[CUS] = CUS
+        node_features = {CUS: False}  # load, do not recompute
     ctx.input("name_map", name_map)
     M.install(store)
     exc = tr2 = None
     try:
         with warnings.catch_warnings():
             warnings.simplefilter("ignore")
-            tr2 = M.gi.import_from_geff("store.zarr", node_name_map=dict(name_map))
+            tr2 = M.gi.import_from_geff("store.zarr", node_name_map=dict(name_map), node_features=node_features)
     except Unsupported:
         raise
     except Exception as e:
@@ -153,7 +163,8 @@ def csv_harness(ctx, cfg):
         p = X.build(ctx, c)
         ctx.allow_realise = True
         try:
-            X.cx.export_to_csv(p.tr, X._Dir("/nonexistent/out.csv"), node_ids=None)
+            X.cx.export_to_csv(p.tr, X._Dir("/nonexistent/out.csv"), node_ids=None,
+                               use_display_names=bool(cfg.get("display_names")))
         except KeyError:
             if len(list(p.tr.graph.nodes)) == 0:
                 ctx.tag("empty")  # pandas refuses to select columns of a frame built from no rows (real behaviour)
@@ -175,7 +186,16 @@ def csv_harness(ctx, cfg):
     # ideal CSV: the same table; an empty field reads back as missing
     data = {h: [(M.NA if (isinstance(r[h], str) and r[h] == "") else r[h]) for r in rows] for h in header}
     coords = [h for h in header if h in ("z", "y", "x")]
-    name_map = {"id": "id", "parent_id": "parent_id", "time": "t", "pos": coords, "track_id": "track_id"}
+    if cfg.get("display_names"):
+        # the mapping a user writes down from the file's header: display names / value names of the registered features
+        f = p.tr.features
+        name_map = {"id": "ID", "parent_id": "Parent ID", "time": f[f.time_key]["display_name"], "pos": coords,
+                    "track_id": f[f.tracklet_key]["display_name"], "lineage_id": f[f.lineage_key]["display_name"]}
+        if cfg.get("custom"):
+            name_map[CUS] = f[CUS]["display_name"]
+    else:
+        name_map = {"id": "id", "parent_id": "parent_id", "time": "t", "pos": coords, "track_id": "track_id"}
+    ctx.input("display_names", bool(cfg.get("display_names")))
     ctx.input("name_map", name_map)
     M.install_csv()
     exc = tr2 = None
@@ -402,8 +422,15 @@ def replay(f):
                     tr.graph.nodes[n]["y"], tr.graph.nodes[n]["x"] = vals
                 else:
                     tr.graph.nodes[n][POS] = list(vals)
+            cus = inp.get("cus")
+            if cus:
+                tr.features[CUS] = {"feature_type": "node", "value_type": "int", "num_values": 1, "required": False,
+                                    "default_value": None, "display_name": "Custom Score"}
+                for n in tr.graph.nodes:
+                    tr.graph.nodes[n][CUS] = int(cus[str(n - 1)])
             g0 = nx.DiGraph(tr.graph)
-            a0 = {n: (tr.get_time(n), [float(x) for x in tr.get_position(n)], tr.get_track_id(n)) for n in g0.nodes}
+            a0 = {n: (tr.get_time(n), [float(x) for x in tr.get_position(n)], tr.get_track_id(n),
+                      tr.graph.nodes[n].get(CUS)) for n in g0.nodes}
             exc = tr2 = None
             try:
                 if inp["op"] == "roundtrip_geff":
@@ -411,14 +438,15 @@ def replay(f):
                     from funtracks.import_export.geff._import import import_from_geff
 
                     export_to_geff(tr, tmp / "out")
-                    tr2 = import_from_geff(tmp / "out" / "tracks", node_name_map=dict(inp["name_map"]))
+                    tr2 = import_from_geff(tmp / "out" / "tracks", node_name_map=dict(inp["name_map"]),
+                                           node_features={CUS: False} if cus else None)
                 else:
                     import pandas as pd
 
                     from funtracks.import_export.csv._export import export_to_csv
                     from funtracks.import_export.csv._import import tracks_from_df
 
-                    export_to_csv(tr, tmp / "out.csv")
+                    export_to_csv(tr, tmp / "out.csv", use_display_names=bool(inp.get("display_names")))
                     tr2 = tracks_from_df(pd.read_csv(tmp / "out.csv"), node_name_map=dict(inp["name_map"]))
             except Exception as e:
                 exc = e
@@ -429,7 +457,8 @@ def replay(f):
         if exc is not None:
             return False, detail
         g2 = tr2.graph
-        a2 = {n: (tr2.get_time(n), [float(x) for x in tr2.get_position(n)], tr2.get_track_id(n)) for n in g2.nodes}
+        a2 = {n: (tr2.get_time(n), [float(x) for x in tr2.get_position(n)], tr2.get_track_id(n),
+                  g2.nodes[n].get(CUS)) for n in g2.nodes}
         detail += f" reimported nodes={ {n: a2[n] for n in sorted(a2)} } edges={sorted(g2.edges)}"
         if ob == "C14.same_nodes":
             return sorted(g2.nodes) != sorted(g0.nodes), detail
@@ -442,6 +471,8 @@ def replay(f):
             return any(not M._eq(a0[n][1], a2[n][1]) for n in common), detail
         if ob == "C14.same_track_ids":
             return any(a0[n][2] != a2[n][2] for n in common), detail
+        if ob == "C14.same_loaded_features":
+            return any(a0[n][3] != a2[n][3] for n in common), detail
         return False, "no oracle for " + ob
     finally:
         shutil.rmtree(tmp, ignore_errors=True)
